@@ -296,3 +296,24 @@ def gen_diff():
 
 
 GENERATORS['nbdime.diffing.generic.diff'] = gen_diff
+
+
+def gen_split_diffs():
+    """(diffs, boundaries; ghosts A, lo, hi) for nbdime.merging.chunks.split_diffs_on_boundaries: well-formed diffs of small lists,
+    boundary lists that contain 0, len(A), every begin/end of a removerange, and a varying subset of the other positions"""
+    for obj, D in gen_patch_list():
+        n = len(obj)
+        need = {0, n}
+        for e in D:
+            if e.op == 'removerange':
+                need |= {e.key, e.key + e.length}
+        others = [x for x in range(n + 1) if x not in need]
+        for mask in range(min(4, 2 ** len(others))):
+            extra = {x for i, x in enumerate(others) if (mask >> i) & 1} if mask < 3 else set(others)
+            bs = sorted(need | extra)
+            lo = [bs.index(e.key) if e.op == 'removerange' else 0 for e in D]
+            hi = [bs.index(e.key + e.length) if e.op == 'removerange' else 0 for e in D]
+            yield [copy.deepcopy(D), list(bs), copy.deepcopy(obj), lo, hi]
+
+
+GENERATORS['nbdime.merging.chunks.split_diffs_on_boundaries'] = gen_split_diffs
